@@ -632,7 +632,7 @@ class ValueBoolean(Value):
     def __lt__(self, other):
         if not isinstance(other, ValueBoolean):
             return str(self) < str(other)
-        return self.value - other.value
+        return self.value < other.value
 
     def __repr__(self):
         return "TRUE" if self.value else "FALSE"
